@@ -107,6 +107,72 @@ impl Family {
     pub fn parties(&self) -> Vec<StakeDistributionParty> {
         self.fixture.stake_distribution_parties()
     }
+
+    /// the registered signer with the largest stake (the one that colludes in twin forgeries)
+    fn big_signer(&self) -> SignerFixture {
+        self.fixture
+            .signers_fixture()
+            .into_iter()
+            .max_by_key(|s| s.signer_with_stake.stake)
+            .unwrap()
+    }
+
+    /// Total stake of the "/s" twin key: a twentieth of the largest signer's stake, so that under
+    /// the twin that signer's relative stake is 20 and it wins (almost surely) every lottery index
+    /// on its own; every genuine signature stays valid (lotteries only get easier).
+    pub fn shrunken_total_stake(&self) -> u64 {
+        std::cmp::max(1, self.big_signer().signer_with_stake.stake / 20)
+    }
+
+    /// A twin of this family's aggregate verification key: the same key except for one component,
+    /// rebuilt from the real value (json-hex -> JSON -> sub-field changed -> json-hex).
+    ///   "s"  same Merkle commitment, shrunken total stake
+    ///   "n"  same Merkle root and total stake, one more leaf claimed
+    pub fn twin_avk(&self, kind: &str) -> ProtocolAggregateVerificationKeyForConcatenation {
+        let mut json: Value = serde_json::from_slice(&hex::decode(&self.avk_hex).unwrap()).unwrap();
+        match kind {
+            "s" => json["total_stake"] = json!(self.shrunken_total_stake()),
+            "n" => {
+                let n = json["mt_commitment"]["nr_leaves"].as_u64().expect("nr_leaves");
+                json["mt_commitment"]["nr_leaves"] = json!(n + 1);
+            }
+            k => panic!("unknown key twin kind {k}"),
+        }
+        ProtocolAggregateVerificationKeyForConcatenation::from_json_hex(&hex::encode(serde_json::to_vec(&json).unwrap()))
+            .expect("twin key re-encodes")
+    }
+
+    /// A multi-signature made by ONE genuine signer of this family that is meant to verify under
+    /// the "/s" twin key: the signer evaluates its own lotteries with phi_f = 1 (claims every
+    /// index) and aggregates its lone signature.
+    pub fn lone_sign(&self, msg: &[u8], params: &ProtocolParameters) -> Option<ProtocolMultiSignature> {
+        let mut view = params.clone();
+        view.phi_f = 1.0;
+        let lone = self.big_signer().try_new_with_protocol_parameters(view.clone()).ok()?;
+        let sig = lone.protocol_signer.sign(msg)?;
+        let clerk = ProtocolClerk::new_clerk_from_closed_key_registration(&view.into(), &lone.protocol_closed_key_registration);
+        let input = AncillaryProofInput::new(None, AncillaryGenesisData::new());
+        clerk
+            .aggregate_signatures_with_type(&[sig], msg, AggregateSignatureType::Concatenation, input)
+            .ok()
+            .map(|(m, _)| m.into())
+    }
+}
+
+/// The twins of a protocol-parameter set: each differs from it in ONE component.
+///   /k  k - 1        /m  m + 1        /f  phi_f + 0.1        /g  phi_f + 1e-6 (beyond the 5th
+///   decimal, still above the fixed-point precision)   /e  phi_f + 1e-9 (below the fixed-point
+///   precision: the SAME parameters for the protocol, same hash, same label)
+/// Every twin makes lotteries no harder and the quorum no larger, so a signature made under the
+/// original parameters stays valid under the twin.
+pub fn param_twins(label: &str, p: &ProtocolParameters) -> Vec<(String, ProtocolParameters)> {
+    vec![
+        (format!("{label}/k"), ProtocolParameters::new(p.k - 1, p.m, p.phi_f)),
+        (format!("{label}/m"), ProtocolParameters::new(p.k, p.m + 1, p.phi_f)),
+        (format!("{label}/f"), ProtocolParameters::new(p.k, p.m, p.phi_f + 0.1)),
+        (format!("{label}/g"), ProtocolParameters::new(p.k, p.m, p.phi_f + 1e-6)),
+        (format!("{label}/e"), ProtocolParameters::new(p.k, p.m, p.phi_f + 1e-9)),
+    ]
 }
 
 /// Abstract certificate as the specification describes it (spec/cert/CertChain.tla).
@@ -182,7 +248,14 @@ impl Kit {
         let rogue_genesis = GenesisEd25519Signer::create_test_signer(<ChaCha20Rng as vh_core::SeedableRng>::from_seed([7u8; 32]));
         Kit {
             families,
-            params: params.iter().map(|(l, p)| (l.to_string(), p.clone())).collect(),
+            params: params
+                .iter()
+                .flat_map(|(l, p)| {
+                    let mut v = vec![(l.to_string(), p.clone())];
+                    v.extend(param_twins(l, p));
+                    v
+                })
+                .collect(),
             genesis_signer,
             genesis_verifier,
             rogue_genesis,
@@ -206,6 +279,24 @@ impl Kit {
         self.families.get(label).unwrap_or_else(|| panic!("unknown key family {label}"))
     }
 
+    /// the aggregate verification key an abstract key name stands for: a family's key, or a twin
+    /// of it ("H3/s", "H3/n")
+    pub fn key(&self, label: &str) -> ProtocolAggregateVerificationKeyForConcatenation {
+        match label.split_once('/') {
+            None => self.family(label).avk_concat.clone(),
+            Some((fam, kind)) => self.family(fam).twin_avk(kind),
+        }
+    }
+
+    pub fn key_hex(&self, label: &str) -> String {
+        self.key(label).to_json_hex().unwrap()
+    }
+
+    /// the family whose registered signers an abstract key name is about
+    pub fn family_of(&self, label: &str) -> &Family {
+        self.family(label.split_once('/').map(|(f, _)| f).unwrap_or(label))
+    }
+
     pub fn param(&self, label: &str) -> &ProtocolParameters {
         self.params.get(label).unwrap_or_else(|| panic!("unknown parameter id {label}"))
     }
@@ -215,10 +306,13 @@ impl Kit {
         if let Some(s) = self.sig_cache.borrow().get(&key) {
             return s.clone();
         }
-        let s = self
-            .family(fam)
-            .multi_sign(msg.as_bytes(), params)
-            .unwrap_or_else(|| panic!("family {fam} could not reach the quorum on {msg}"));
+        let s = match fam.split_once('/') {
+            None => self.family(fam).multi_sign(msg.as_bytes(), params),
+            // "signed under the twin": one genuine signer alone, under the shrunken total stake
+            Some((base, "s")) => self.family(base).lone_sign(msg.as_bytes(), params),
+            Some((_, k)) => panic!("nobody can sign under a /{k} twin"),
+        }
+        .unwrap_or_else(|| panic!("family {fam} could not reach the quorum on {msg}"));
         self.sig_cache.borrow_mut().insert(key, s.clone());
         s
     }
@@ -242,7 +336,7 @@ impl Kit {
         if a.next_avk != "none" {
             pm.set_message_part(
                 ProtocolMessagePartKey::NextAggregateVerificationKey,
-                self.family(&a.next_avk).avk_hex.clone(),
+                self.key_hex(&a.next_avk),
             );
         }
         if a.next_params != "none" {
@@ -301,7 +395,7 @@ impl Kit {
                 ms,
             )
         };
-        let fam = self.family(&a.avk);
+        let fam = self.family_of(&a.avk);
         let metadata = CertificateMetadata::new(
             "devnet",
             "0.1.0",
@@ -317,7 +411,7 @@ impl Kit {
             metadata,
             protocol_message: pm,
             signed_message,
-            aggregate_verification_key: fam.avk_concat.clone(),
+            aggregate_verification_key: self.key(&a.avk),
             ancillary_prover_data: None,
             ancillary_verifier_data: None,
             signature,
@@ -369,19 +463,69 @@ impl Kit {
         h.chars().take(12).collect()
     }
 
+    /// Abstract name of a real key, recomputed from its real components: a family's name only if
+    /// Merkle root, number of leaves AND total stake are that family's; a key that shares the
+    /// root but not the rest is a twin with its own name; anything else is named by its digest.
     fn avk_label(&self, json_hex: &str) -> String {
+        let parts = |hex_text: &str| -> Option<(Value, u64, u64)> {
+            let v: Value = serde_json::from_slice(&hex::decode(hex_text).ok()?).ok()?;
+            Some((v["mt_commitment"]["root"].clone(), v["mt_commitment"]["nr_leaves"].as_u64()?, v["total_stake"].as_u64()?))
+        };
         for f in self.families.values() {
             if f.avk_hex == json_hex {
                 return f.label.clone();
             }
         }
+        if let Some((root, n, stake)) = parts(json_hex) {
+            for f in self.families.values() {
+                let (froot, fnr, fstake) = parts(&f.avk_hex).unwrap();
+                if froot == root {
+                    let mut l = f.label.clone();
+                    if n != fnr {
+                        l.push_str(&format!("/n{n}"));
+                    }
+                    if stake != fstake {
+                        l.push_str(&format!("/s{stake}"));
+                    }
+                    if l != f.label {
+                        return l;
+                    }
+                }
+            }
+        }
         format!("x{}", Kit::short(&sha_hex(json_hex)))
     }
 
+    /// Abstract name of real protocol parameters, recomputed from the real numbers and compared
+    /// at the protocol's fixed-point precision (U8F24) by the harness itself -- never through the
+    /// equality or hash of the code under test. (`p/e` differs from `p` below that precision: it
+    /// IS `p`.)
+    fn params_label(&self, p: &ProtocolParameters) -> String {
+        let fx = |x: f64| fixed::types::U8F24::checked_from_num(x).map(|v| v.to_bits());
+        for (l, q) in &self.params {
+            if q.k == p.k && q.m == p.m && fx(q.phi_f).is_some() && fx(q.phi_f) == fx(p.phi_f) {
+                return l.strip_suffix("/e").unwrap_or(l).to_string();
+            }
+        }
+        format!("x{}", Kit::short(&sha_hex(&format!("{}|{}|{:?}", p.k, p.m, fx(p.phi_f)))))
+    }
+
+    /// the hash text of parameters as the protocol defines it (k, m, phi_f as U8F24, big-endian),
+    /// computed by the harness
+    fn params_hash_text(p: &ProtocolParameters) -> Option<String> {
+        let fx = fixed::types::U8F24::checked_from_num(p.phi_f)?;
+        let mut h = Sha256::new();
+        h.update(p.k.to_be_bytes());
+        h.update(p.m.to_be_bytes());
+        h.update(fx.to_be_bytes());
+        Some(hex::encode(h.finalize()))
+    }
+
+    /// Abstract name of the parameters a `next_protocol_parameters` message part commits to
     fn params_label_by_hash(&self, h: &str) -> String {
         for (l, p) in &self.params {
-            if p.compute_hash() == h {
-                return l.clone();
+            if Kit::params_hash_text(p).as_deref() == Some(h) {
+                return l.strip_suffix("/e").unwrap_or(l).to_string();
             }
         }
         format!("x{}", Kit::short(h))
@@ -454,7 +598,7 @@ impl Kit {
             "epoch": (*c.epoch).min(1_000_000),
             "kind": if genesis { "genesis" } else { "std" },
             "avk": avk.clone(),
-            "params": self.params_label_by_hash(&c.metadata.protocol_parameters.compute_hash()),
+            "params": self.params_label(&c.metadata.protocol_parameters),
             "msgEpoch": msg_epoch,
             "nextAvk": next_avk,
             "nextParams": next_params,
